@@ -85,6 +85,31 @@ def run(ctx):
         for k, c in enumerate(b):
             pos[id(c)] = outs[bi][k]
     impl = [pos[id(c)] for c in cases]
+    # the same requests, each as the only call of a fresh process: what a sequence returns must not depend on earlier calls
+    fresh_cases = []
+    for gi, g in enumerate(groups):
+        for (eb, rs) in ((False, False), (True, True)):
+            c = {"fn": "gen", "name": g["name"], "args": g["args"], "ensure_bounded": eb, "return_scale": rs, "chebyshev_basis": True,
+                 "timeout": 300, "gi": gi}
+            c.update(g["extra"])
+            fresh_cases.append(c)
+    fresh = []
+    for i in range(0, len(fresh_cases), 32):
+        part = fresh_cases[i:i + 32]
+        fresh += run_impl(part, timeout=3000, workers=len(part))
+    FRESH = {}
+    for c, r in zip(fresh_cases, fresh):
+        FRESH[(c["gi"], c["ensure_bounded"])] = r
+
+    def differs(a, b):
+        if len(a["coefs"]) != len(b["coefs"]):
+            return True
+        mx = max([abs(float(fr(x))) for x in a["coefs"]] + [1e-300])
+        if any(abs(float(fr(x)) - float(fr(y))) > 1e-9 * mx for x, y in zip(a["coefs"], b["coefs"])):
+            return True
+        if (a["scale"] is None) != (b["scale"] is None):
+            return True
+        return a["scale"] is not None and abs(float(fr(a["scale"])) - float(fr(b["scale"]))) > 1e-9 * abs(float(fr(b["scale"])))
     lines, meta = [], []
     for gi, g in enumerate(groups):
         R = {}
@@ -110,6 +135,18 @@ def run(ctx):
         if again["coefs"] != R[key0]["coefs"] or again["scale"] != R[key0]["scale"]:
             ctx.fail("options", case, "%s: repeating the call with options %s in the same process gives a different result (scale %s vs %s)"
                      % (g["name"], key0, again["scale"], R[key0]["scale"]))
+            continue
+        stale = False
+        for eb in (False, True):
+            fr_ = FRESH.get((gi, eb))
+            if fr_ is None or "exc" in fr_:
+                continue
+            if differs(R[(eb, eb, True)], fr_["ok"]):
+                ctx.fail("options", case, "%s: the result of generate(ensure_bounded=%s, return_scale=%s, chebyshev_basis=True) inside a call sequence differs from the "
+                         "same call made first in a fresh process (scale %s vs %s): state carried across calls"
+                         % (g["name"], eb, eb, R[(eb, eb, True)]["scale"], fr_["ok"]["scale"]))
+                stale = True
+        if stale:
             continue
         bases = (True,) if g.get("cheb_only") else (True, False)
         for eb in (True, False):
